@@ -36,11 +36,17 @@ func c11Config(opts *[]ucfg.Option) *ucfg.Config {
 		return "", parse.DefaultConfig, ucfg.ErrMissing
 	}
 	*opts = []ucfg.Option{ucfg.PathSep("."), ucfg.VarExp, ucfg.Resolve(resolver)}
+	// the configuration may have been built WITHOUT a path separator while its readers use one
+	bopts := *opts
+	if verif.Choice("built-without-pathsep", 2) == 1 {
+		bopts = bopts[1:]
+	}
 	u := verif.Uint64("u")
 	c, err := ucfg.NewFrom(map[string]interface{}{
+		"sel": "a", "nested": "${${sel}}", "nested2": "${o.${selk}}", "selk": "k",
 		"a": "text", "n": 7, "pu": u, "o": map[string]interface{}{"k": "deep", "r": "${a}"}, "l": []interface{}{u, "${n}", map[string]interface{}{"x": "${o.k}"}},
 		"ra": "${a}", "rs": "pre-${a}-${n}", "robj": "${obj}", "rl": "${lst}", "rd": "${missing:dflt}", "ro": "${o}",
-	}, *opts...)
+	}, bopts...)
 	verif.Assume(err == nil)
 	return c
 }
@@ -49,7 +55,7 @@ func c11Config(opts *[]ucfg.Option) *ucfg.Config {
 func H_C11_np_reads() {
 	var opts []ucfg.Option
 	c := c11Config(&opts)
-	op := verif.Choice("op", 19)
+	op := verif.Choice("op", 21)
 	other := ucfg.New()
 	verif.ReadOnlyBegin("C11/read operation writes to the config", c)
 	switch op {
@@ -133,6 +139,19 @@ func H_C11_np_reads() {
 			other.Merge(map[string]interface{}{"k": ch, "k.added": 1}, opts...)
 			other.Merge(ch, opts...)
 		}
+	case 19:
+		// merge source with a MetaData option on the merge (labels the destination's copies)
+		other.Merge(c, append(append([]ucfg.Option{}, opts...), ucfg.MetaData(ucfg.Meta{Source: "merged.yml"}))...)
+		ch, err := c.Child("o", -1, opts...)
+		if err == nil {
+			other.Merge(ch, ucfg.MetaData(ucfg.Meta{Source: "child.yml"}))
+		}
+	case 20:
+		// computed variable names, read with and without a separator
+		c.String("nested", -1, opts...)
+		c.String("nested2", -1, opts...)
+		c.String("nested", -1, ucfg.VarExp)
+		c.String("nested2", -1, ucfg.VarExp, ucfg.PathSep("/"))
 	case 15:
 		c.Remove("zz", -1, opts...) // removing something that does not exist changes nothing
 		c.Has("l", 7, opts...)
